@@ -35,7 +35,7 @@ func catalogue() []schedScenario {
 	dist.Case.Dist = []int{0, 1, 0, 1, 0}
 	inst := sc("S11:instant a", `a`, 4, 1, 2, 3)
 	inst.Case.W = core.Instant(40000)
-	pp := sc("S12:a/2shards/poolpoints", `a`, 4, 1, 1, 2)
+	pp := sc("S12:a/2shards/poolpoints", `a`, 4, 1, 2, 3)
 	pp.PoolPoints = true
 	yp := sc("S13:sum by (l)(a)/yields", `sum by (l)(a)`, 2, 2, 1, 2)
 	yp.YieldPoints = true
